@@ -459,7 +459,7 @@ def server_cases(ctx, w):
                     # callback / probe variations ride along on a deterministic subset
                     cbf = (vi % 7 == 3)
                     att = not (vi % 5 == 4)
-                    if not ctx.thorough and ci >= 2 and ctx.rng.random() > 0.1:
+                    if not ctx.thorough and ci >= 1 and ctx.rng.random() > 0.15:
                         full = False
                         continue
                     data = session_blob(w, b"session-id-c07", "user", declared, blob)
@@ -924,7 +924,7 @@ def run(ctx):
                 "ECDSA p256,p384,p521 / Ed25519, plain and cert, truncated, foreign type) x signature name "
                 "(RSA: 6 HASHES names, 3 foreign; EC: 5; Ed: 3) x how the bytes were really made (RSA: SHA-1, "
                 "SHA-256, SHA-512, other data; else real / other data); server = the same x 6 disabled-pubkeys "
-                "sets (first two sets fully enumerated in the quick tier, others sampled at 10 %; thorough: all) "
+                "sets (first set fully enumerated in the quick tier, the others sampled at 15 %; thorough: all) "
                 "with callback refusal / key probe riding along; two-request histories on one AuthHandler (key probe or rejected signed request naming one algorithm, then a signed request naming another; second decision compared with a fresh handler's); every client case repeated with the transport already holding the same / another host key (re-key); preference lists on generated configurations; "
                 "loopback handshakes / authentications against a peer signing with another algorithm.  A case "
                 "is non-trivial when distinct; every case reaches a key-class / name / hash branch.")
